@@ -6,6 +6,7 @@ pub mod alloc;
 pub mod findings;
 pub mod gen;
 pub mod hang;
+pub mod journal;
 pub mod model;
 pub mod props;
 pub mod runner;
